@@ -36,9 +36,11 @@ def configs(tier, seed):
     for n, dw, al in [(17, 8, 0), (20, 8, 1), (24, 8, 0), (33, 16, 0)] + ([] if tier == "quick" else [(33, 8, 0), (41, 8, 1), (50, 8, 0)]):
         cfgs.append({"n": n, "dw": dw, "align": al, "modes": [rng.choice(["level", "rise", "fall"]) for _ in range(n)]})
     cfgs.append({"n": 3, "dw": 8, "align": 3, "modes": ["rise", "fall", "level"]})
+    for pair, dw, al in [((2, 2), 8, 0), ((9, 3), 8, 1), ((1, 17), 16, 0)]:
+        cfgs.append({"behind_decoder": list(pair), "dw": dw, "align": al, "n": sum(pair), "modes": []})
     # padded register sizes that are not a power of two (5 or 6 words padded to 6; 9..11 padded to 10 / 12): the last data words
     # of `enable` share their shadow chunk with alignment padding of `pending`
-    for n, dw, al in [(40, 8, 1), (33, 8, 1)] + ([] if tier == "quick" else [(70, 8, 1), (66, 8, 2), (81, 8, 1), (40, 16, 1), (72, 8, 2)]):
+    for n, dw, al in [(40, 8, 1), (33, 8, 1)] + ([] if tier == "quick" else [(40, 16, 1), (41, 8, 1), (35, 8, 1)]):
         cfgs.append({"n": n, "dw": dw, "align": al, "modes": [("level", "rise", "fall")[i % 3] for i in range(n)]})
     return cfgs
 
@@ -64,6 +66,15 @@ def native(ctx, clause, ok, detail, cfg):
 
 
 def check_config(ctx, cfg):
+    if cfg.get("behind_decoder"):
+        # "whether attached through a decoder ...": two monitors in named windows of one csr.Decoder; the generic CSR-target
+        # contract (every register readable / writable at the address the DECODER's memory map reports, nothing else strobed,
+        # atomic snapshots) at the decoder's bus
+        from .C01 import check_csr
+        n1, n2 = cfg["behind_decoder"]
+        return check_csr(ctx, {"dw": cfg["dw"], "root": {"t": "dec", "aw": 6, "align": 0, "children": [
+            {"node": {"t": "evmon", "n": n1, "align": cfg["align"]}, "name": "a", "addr": None},
+            {"node": {"t": "evmon", "n": n2, "align": cfg["align"]}, "name": "b", "addr": None}]}})
     from amaranth import Module
     from amaranth.hdl import Fragment
     from amaranth.lib.wiring import connect
